@@ -35,6 +35,9 @@ def fieldsAux : List Char → List Char → List (List Char)
 
 def fields (s : String) : List String := (fieldsAux s.toList []).map String.ofList
 
+/-- `strings.ContainsAny`: some character of `chars` occurs in `s` -/
+def containsAny (s chars : String) : Bool := s.toList.any fun c => chars.toList.contains c
+
 /-- `strings.Join` -/
 def join (xs : List String) (sep : String) : String := sep.intercalate xs
 
